@@ -176,6 +176,23 @@ func fillers(file []string) []age.Identity {
 func runCase(r *mon.Run, idx int, c encCase) {
 	parties := keys.Ps(c.list...)
 	pt := mon.DetBytes(fmt.Sprintf("c01-%d-%d", r.Seed, idx), c.length)
+	// the content is not always noise: all zeros, a tail or a head of zeros,
+	// 0xFF, newlines
+	switch idx % 9 {
+	case 2:
+		pt = make([]byte, c.length)
+	case 4:
+		for i := len(pt) / 3; i < len(pt); i++ {
+			pt[i] = 0
+		}
+	case 6:
+		for i := 0; i < 2*len(pt)/3; i++ {
+			pt[i] = 0
+		}
+	case 8:
+		pt = bytes.Repeat([]byte{[]byte{0xff, '\n', 0x80}[idx%3]}, c.length)
+	}
+	r.Tab("plaintext_content", []string{"noise", "noise", "zeros", "noise", "zero-tail", "noise", "zero-head", "noise", "one-byte-repeated"}[idx%9])
 	// how the plaintext is handed to the writer rotates with the case: one
 	// Write, io.Copy from a plain source (uses the writer's ReadFrom if it has
 	// one), io.Copy from a bytes.Reader, CopyBuffer with small and 64 KiB buffers
